@@ -76,7 +76,12 @@ JRewrite(case) == IF SameFormula(case) THEN (IF JEqual(case) THEN "T" ELSE "F") 
 JCanon(case) ==
   \A ci \in 1..Len(case.calls) :
     LET call == case.calls[ci] IN
-      Ok(call) /\ \A i \in 1..Len(call.res) : call.canon[i] /\ ~call.aux[i]
+      /\ Ok(call) /\ \A i \in 1..Len(call.res) : call.canon[i] /\ ~call.aux[i]
+      \* sanitize_colors / sanitize_vertices on the projections of a raw result: the projections, canonically encoded
+      /\ ("san_colors" \in DOMAIN call =>
+            /\ call.san_proj_ok
+            /\ ToSet(call.san_colors) = {x \div W0 : x \in Res(call, Len(call.res))}
+            /\ ToSet(call.san_vertices) = {x % W0 : x \in Res(call, Len(call.res))})
 
 (* unsafe: calls[1] standard raw evaluation, calls[2] the self-loop-free variant (C18).         *)
 (* The antecedent is decided here: fragment without EX AX AF EG AU EW, or no steady state.      *)
